@@ -19,3 +19,7 @@ def run(ctx, replay=None):
         behs = ctfe_common.model_and_behaviours(ctx, 1500, 30000)
         path = ctx.write_ndjson("behaviours.ndjson", behs)
     ctx.go_test("cctfe", run="TestReplay$", env={"VERIF_BEHAVIOURS": path, "VERIF_PROP": "C01"}, timeout=3000)
+    if not replay:
+        # the certificate token opened: SCT over the independently derived entry for every shape of submission
+        # (cross-signed roots, pre-issuers with either AKI form, key types, non-fatal oddities, chain storage modes)
+        ctfe_common.entry_shapes(ctx, "C01")
